@@ -48,3 +48,20 @@ Theorem C05_path_resolution_bounded : forall fault hash, (forall k, length (hash
   forall segs b, N.of_nat (length (snd (walk_path fault hash b segs))) <= 65 * N.of_nat (length segs).
 Proof. exact walk_path_bounded. Qed.
 Print Assumptions C05_path_resolution_bounded.
+
+(* ---- file nodes whose children carry no declared size (File/Unsized.v, UnsizedLoads.v) ---- *)
+From UV Require Import File.Unsized File.UnsizedLoads.
+(* the request-decorated stream of the extended reader delivers exactly what the undecorated one does (the tie between
+   the bytes-level theorems and the request log the harness compares) *)
+Theorem C05_unsized_requests_model : forall fault b off, sview (ustreamL fault b off) = sview (ustream fault b off).
+Proof. exact ustreamL_view. Qed.
+Print Assumptions C05_unsized_requests_model.
+
+(* KNOWN FINDING (known_findings.json, C05-unsized-children-all-opened): on such DAGs a range read requests blocks whose
+   span does not meet the range — reading byte 0 of "abc" "de" | "f" requests the leaf holding "f" *)
+Theorem C05_unsized_range_refuted :
+  exists b, uwell b = true /\
+    let '(bs, loads, _, _) := take (ustreamL nofault b 0) 1 [] [] in
+    bs = [97%N] /\ existsb (blk_eqb (UnsizedFaults.ex_leaf [102%N])) loads = true.
+Proof. exact unsized_range_refuted. Qed.
+Print Assumptions C05_unsized_range_refuted.
